@@ -11,3 +11,7 @@ def c04_part(chk, tier, rng):
 
 def c20_part(chk, tier, rng):
     pass
+
+
+def c18_part(chk, tier, rng):
+    pass
